@@ -765,9 +765,14 @@ fn supervisor(spec: &Spec, a: &Args) -> ! {
 
     println!("{} tier={} seed={} cases={} evaluations={} distinct_nontrivial={} cells={} known_finding_hits={} inconclusive_cases={} wall={:.1}s",
         spec.prop, a.tier.name(), a.seed as i64, cases, evals, distinct_n, cells.len(), known.values().map(|v| v.0).sum::<u64>(), inconclusive_cases, wall);
-    for (id, (n, ex)) in &known {
-        let what = all_findings.iter().find(|f| f["id"].as_str() == Some(id)).and_then(|f| f["what"].as_str()).unwrap_or("");
-        println!("KNOWN-FINDING: property={} {} ({} hits) {} e.g. {}", spec.prop, id, n, what, truncate(ex, 300));
+    // every open finding listed for this property is reported, with the number of times its predicate matched in this run
+    for f in all_findings.iter().filter(|f| f["status"].as_str() == Some("open") && f["property"].as_str() == Some(spec.prop)) {
+        let id = f["id"].as_str().unwrap_or("");
+        let what = f["what"].as_str().unwrap_or("");
+        match known.get(id) {
+            Some((n, ex)) => println!("KNOWN-FINDING: property={} {} ({} hits in this run) {} e.g. {}", spec.prop, id, n, truncate(what, 400), truncate(ex, 300)),
+            None => println!("KNOWN-FINDING: property={} {} (0 hits in this run) {}", spec.prop, id, truncate(what, 400)),
+        }
     }
     if n_viol > 0 {
         println!("{} violation(s) observed, {} distinct signatures reported", n_viol, printed.len());
